@@ -7,8 +7,6 @@ import (
 	"strings"
 )
 
-func cmdCheck(args []string) int  { return 0 }
-func cmdReplay(args []string) int { return 0 }
 
 func cmdVC(args []string) int {
 	fs := flag.NewFlagSet("vc", flag.ExitOnError)
@@ -32,6 +30,7 @@ func cmdVC(args []string) int {
 	for _, e := range C.Errors {
 		fmt.Println("CONTRACT ERROR:", e)
 	}
+	os.RemoveAll("/verif/out/vc")
 	d := NewDischarger("/verif/out/vc", *timeout, 16)
 	rc := 0
 	for _, key := range keys {
@@ -57,6 +56,9 @@ func cmdVC(args []string) int {
 				rc = 1
 			}
 			fmt.Printf("%s %-8s %-22s %6.2fs %s  %s\n", status, ob.Result, ob.Solver, ob.Seconds, ob.Name, ob.Pos)
+			if status == "FAIL" {
+				fmt.Printf("     query: %s\n", ob.File)
+			}
 		}
 		fmt.Printf("inlined: %v\nabstracted: %v\nassumed: %v\n", sortedKeys(vc.Inlined), sortedKeys(vc.Abstracted), sortedKeys(vc.Assumed))
 	}
